@@ -101,6 +101,10 @@ pub fn key_pool(scheme: Scheme, seed: u64) -> Vec<RefKey> {
         v.push(RefKey::new(scheme, [0u8; 32]));
         v.push(RefKey::new(scheme, [0xff; 32]));
     }
+    if scheme == Scheme::Toy {
+        // a key of the custom scheme whose signatures are 1..8 bytes: valid records far smaller than any built-in one
+        v.push(RefKey::new(scheme, secret_from(scheme, crate::keys::SHORT_TOY_LABEL | (seed & 0xff))));
+    }
     v
 }
 
@@ -620,6 +624,14 @@ pub fn size_sweep(rec: &Rec) -> Vec<(&'static str, Vec<u8>)> {
             out.push((if target <= 300 { "size-le-300" } else { "size-gt-300" }, r2.bytes()));
         }
     }
+    // small records whose signed content crosses 55/56 bytes (where the list header of the signed message changes form)
+    let small = Rec::minimal(rec.key, 1 + rec.seq % 100);
+    let s0 = small.size();
+    for target in s0 + 2..=s0 + 14 {
+        if let Some(r2) = pad_to(&small, b"p", target) {
+            out.push(("size-content-boundary", r2.bytes()));
+        }
+    }
     out
 }
 
@@ -793,6 +805,24 @@ pub fn field_tampers(rec: &Rec, other_key: &RefKey, other_rec: &Rec) -> Vec<(&'s
         out.push(("sig-der-encoded", assemble_with_sig(&der, &items)));
         for v in [0u8, 1, 27, 28] {
             out.push(("sig-with-recovery-id", assemble_with_sig(&[&sg[..], &[v][..]].concat(), &items)));
+        }
+    }
+    // signature by the right key over the right content FRAMED differently: long-form list header where the short
+    // form is canonical, a length with a leading zero byte, the bare payload, the content as a byte string
+    {
+        let payload = rlp::enc_items(&items);
+        let mut framings: Vec<Vec<u8>> = vec![payload.clone(), rlp::enc_str(&payload), leadzero_long(&payload, true)];
+        if payload.len() < 56 {
+            framings.push(noncanon_long(&payload, true));
+        } else if payload.len() < 256 {
+            let mut v = vec![0xf9, 0x00, payload.len() as u8];
+            v.extend_from_slice(&payload);
+            framings.push(v);
+        }
+        for f in framings {
+            if f != content {
+                out.push(("sig-over-other-framing", assemble_with_sig(&rec.key.sign(&f), &items)));
+            }
         }
     }
     // signature with one byte dropped at the front of r / of s, or left-padded (interesting when that byte is 0)
